@@ -24,6 +24,9 @@ structure S where
   owner : Nat
   engine : Nat
   vamms : List Nat          -- stored order
+  /-- the list item exists in storage (`may_load` answers `Some`): true once a vAMM was ever added,
+      also after the last one was removed again — `ShutdownVamms` tells the two apart -/
+  stored : Bool
   deriving Repr, DecidableEq, Inhabited
 
 def VAMM_LIMIT : Nat := 3
@@ -36,7 +39,7 @@ def addVamm (s : S) (sender vamm : Nat) (engineDecimals vammDecimals : Except Er
   if ed ≠ vd then .error (.guard 80)
   else if s.vamms.contains vamm then .error (.guard 81)
   else if s.vamms.length ≥ VAMM_LIMIT then .error (.guard 82)
-  else pure { s with vamms := s.vamms ++ [vamm] }
+  else pure { s with vamms := s.vamms ++ [vamm], stored := true }
 
 /-- `Vec::swap_remove` -/
 def swapRemove (l : List Nat) (x : Nat) : List Nat :=
@@ -54,7 +57,7 @@ def swapRemove (l : List Nat) (x : Nat) : List Nat :=
 
 def removeVamm (s : S) (sender vamm : Nat) : Except Err S :=
   if sender ≠ s.owner then .error .unauthorized
-  else if s.vamms.isEmpty then .error (.guard 83)   -- (an empty stored list still passes `may_load`; see note)
+  else if !s.stored then .error (.guard 83)
   else if !s.vamms.contains vamm then .error (.guard 84)
   else .ok { s with vamms := swapRemove s.vamms vamm }
 
@@ -343,7 +346,7 @@ def applyTx (w0 : World) (env : Env) (sender : Nat) (funds : Engine.Funds) (tx :
       pure { w with ifund := s }
   | .ifShutdown =>
       if sender ≠ w.ifund.owner ∧ sender ≠ IFUND then .error .unauthorized
-      else if w.ifund.vamms.isEmpty then .error (.guard 83)
+      else if !w.ifund.stored then .error (.guard 83)
       else execSubs FUEL w IFUND ((w.ifund.vamms.take Insurance.VAMM_LIMIT).map (fun v => ⟨.vammSetOpen v false, 0, .never⟩))
   | .ifWithdraw amt => (execMsg FUEL w sender (.ifWithdraw amt)).map (·.1)
   | .ifOwner n => do
